@@ -244,7 +244,7 @@ Proof.
     destruct (fst d =? 0); [intros x; discriminate|].
     destruct (negb (aligned_to 8 (fst d)) || negb (aligned_to 8 (snd d))); [intros x; discriminate|].
     destruct (snd d =? 0); [intros x; discriminate|].
-    destruct (checked_add W32 (fst d) (snd d)); cbn [bind]; [|intros x; discriminate].
+    destruct (checked_add W64 (fst d) (snd d)); cbn [bind]; [|intros x; discriminate].
     destruct (get_range (m_len m) (fst d) n); intros x; discriminate.
 Qed.
 
